@@ -17,8 +17,8 @@ FUNCTIONS = [(SF.FILE, '_writeSetFLDensityFunctionFinnisSinclair'), (SF.FILE, '_
              (ET.FILE, 'SetFL_FS_EAMTabulation.write'), (ET.FILE, 'TABEAM_FinnisSinclair_EAMTabulation.write'),
              (BE.FILE, 'EAM_Potential_Builder_FS._density_to_potential_form_dict'), (BE.FILE, 'EAM_Potential_Builder_FS._density_species'),
              (BE.FILE, 'EAM_Potential_Builder_FS._add_null_density_functions'),
-             (XS.FILE, 'Excel_PairTabulation._populate_worksheet')]
-SPECSEQS = [SF.fvals, BE.fs_species_seq]
+             (XS.FILE, 'Excel_PairTabulation._populate_worksheet'), (XS.F_ET, 'Excel_FinnisSinclair_EAMTabulation._add_eam_density'), (XS.F_PT, '_r_value_iterator')]
+SPECSEQS = [SF.fvals, BE.fs_species_seq, XS.grid_seq]
 
 def lemmas():
     out = []
@@ -55,12 +55,14 @@ MUTANTS = [
     (TB.FILE, 'writeTABEAMFinnisSinclair', "for eamPotential in eampots:", "for eamPotential in reversed(eampots):", 'preserve'),
     (SF.FILE, 'writeSetFLFinnisSinclair', "_writeSetFLDensityFunctionFinnisSinclair)", "_writeSetFLDensityFunction)", 'preserve/0'),
     (XS.FILE, 'Excel_PairTabulation._populate_worksheet', "pot = column_dict[label]", "pot = column_dict[column_keys[len(column_keys) - 1]]", 'preserve/2'),
+    (XS.F_ET, 'Excel_FinnisSinclair_EAMTabulation._add_eam_density', "format(species_f, species_t)", "format(species_t, species_f)", 'preserve/1'),
+    (XS.F_ET, 'Excel_FinnisSinclair_EAMTabulation._add_eam_density', "species_f = p.species", "species_f = self.eam_potentials[0].species", 'init/1'),
 ]
 ASSUMPTIONS = ['A7: LAMMPS pair_style eam/fs reads rho[i] += rhor[type2rhor[jtype][itype]] (k-th array of element block X = density at a k site due to an X neighbour); DL_POLY EEAM "dens A B" = density at an A site due to a B neighbour (repository documentation; the DL_POLY runs are skipped here)',
                'A1: float as real', 'A4: sorted(list) (uninterpreted, same function on both sides)',
                'every ordered pair has a declared density in the Python API route (the potable builder zero-fills undeclared ones: config/_eam_potential_builder.py, exercised by the oracle until its contracts are added)']
-NOTES = ['Excel route: the sheet-filling function is verified (the column HEADED by a label holds the function stored UNDER that label, contracts/excel.py); that the label "A->B" is paired with the density of an A site due to a B neighbour in Excel_FinnisSinclair_EAMTabulation._add_eam_density is decided by the concrete oracle (bounded)']
-BOUNDED = [dict(name='Excel EAM-Density sheet: the (label, function) pairs handed to the verified _populate_worksheet; shared leading forms of potable [EAM-Density] A->B entries', bound='seeded models with 1..4 species, quick 40 / thorough 1500 cases', technique='concrete oracle on the real code')]
+NOTES = ['Excel route (contracts/excel.py): Excel_FinnisSinclair_EAMTabulation._add_eam_density is verified -- every density declared for central species A and neighbour B is stored under the label "A->B", nothing else is, the columns are the sorted labels on the separation grid -- and so is the sheet-filling function (the column HEADED by a label holds the function stored UNDER it). Preconditions: the potentials are of pairwise different species and a label determines its pair (labels without "->")']
+BOUNDED = [dict(name='the Excel workbook as a whole (assembly of the sheets, saving and re-reading with openpyxl); undeclared combinations in the Excel sheet; shared leading forms of potable [EAM-Density] A->B entries', bound='seeded models with 1..4 species, quick 40 / thorough 1500 cases', technique='concrete oracle on the real code')]
 
 def oracle_payload(tier, seed, mode='search'): return dict(mode=mode, seed=seed, n=40 if tier == 'quick' else 1500)
 def witness_for(ob, devs, run_oracle):
